@@ -306,8 +306,11 @@ pub fn run(ctx: &Ctx) {
             out::outcome(idx, &class, Verdict::Inconclusive, "harness-model-mismatch", &d);
             continue;
         }
-        if sig.is_empty() && seen != expect {
-            sig = format!("expected-{}-saw-{}", expect, seen);
+        // the property does not fix the wording of library panics: what is judged is whether a panic
+        // was raised (and that a user panic arrives as the user raised it)
+        let ok_class = if expect == "no-panic" { seen == "no-panic" } else if expect == "user" { seen == "user" } else { seen != "no-panic" && seen != "user" };
+        if sig.is_empty() && !ok_class {
+            sig = format!("expected-{}-saw-{}", if expect == "no-panic" || expect == "user" { expect } else { "a-library-panic" }, seen);
         }
         // (c) refusals happen before anything is modified
         let is_refusal = matches!(s.kind, PK::SigMismatch | PK::SigMismatchFakeMacro | PK::NullTarget | PK::NullFake | PK::BoolOnNonBool | PK::AsyncWrongOutput | PK::UncheckedMix);
